@@ -129,6 +129,8 @@ type Operation struct {
 	Responses   map[string]*Response   `json:"responses"`
 	Security    *[]map[string][]string `json:"security,omitempty"`
 	Servers     []*Server              `json:"servers,omitempty"`
+	// `deprecated` is an annotation: a deprecated operation is served like any other
+	Deprecated bool `json:"deprecated,omitempty"`
 }
 
 type Parameter struct {
@@ -163,6 +165,7 @@ type Header struct {
 	Ref         string  `json:"$ref,omitempty"`
 	Description string  `json:"description,omitempty"`
 	Required    bool    `json:"required,omitempty"`
+	Deprecated  bool    `json:"deprecated,omitempty"`
 	Schema      *Schema `json:"schema,omitempty"`
 }
 
